@@ -10,6 +10,10 @@ func genC16(p *Plan, r *RNG) {
 		genC16Race(p, r)
 		return
 	}
+	if r.Chance(1, 12) {
+		genC16OnControl(p, r)
+		return
+	}
 	baseSrvConfig(p, r)
 	p.Flavor = "tcprelay"
 	p.Cfg.Listener = "tcp"
@@ -30,7 +34,7 @@ func genC16(p *Plan, r *RNG) {
 	}
 	if r.Chance(1, 3) {
 		cuts, reads := genCuts(r)
-		p.Streams = []StreamCut{{Conn: "*", Cuts: cuts, Reads: reads}}
+		p.Streams = []StreamCut{{Conn: "*", Cuts: cuts, Reads: reads, Coalesce: r.Chance(1, 2)}}
 	}
 	for i := 0; i < nc; i++ {
 		p.Ops = append(p.Ops, Op{Actor: p.Clients[i].ID, Kind: "allocate", At: gap(int64(r.Range(1, 300)) * ms), A: OpArgs{Lifetime: -1, Transport: "tcp"}})
@@ -103,7 +107,15 @@ func genC16(p *Plan, r *RNG) {
 				p.Ops = append(p.Ops, Op{Actor: pid, Kind: "peer_close", At: g, A: OpArgs{N: r.Intn(npeerc[pid])}})
 			}
 		default:
-			p.Ops = append(p.Ops, Op{Actor: c, Kind: "binding", At: g})
+			switch r.Intn(3) {
+			case 0:
+				// the allocation ends while pipes may be up: everything it owned goes with it
+				p.Ops = append(p.Ops, Op{Actor: c, Kind: "refresh", At: g, A: OpArgs{Lifetime: 0}})
+			case 1:
+				p.Ops = append(p.Ops, Op{Actor: c, Kind: "allocate", At: g, A: OpArgs{Lifetime: -1, Transport: "tcp"}})
+			default:
+				p.Ops = append(p.Ops, Op{Actor: c, Kind: "binding", At: g})
+			}
 		}
 	}
 	// liveness probe on every control connection at the end
@@ -113,6 +125,12 @@ func genC16(p *Plan, r *RNG) {
 	p.QuietNS = 40 * sec
 	if r.Chance(1, 4) {
 		addFaults(p, r, 1)
+	}
+	if r.Chance(1, 6) {
+		// a write on a client connection fails (a response on the control connection, the
+		// ConnectionBind answer on a data connection, or bytes of a pipe)
+		p.IOFaults = append(p.IOFaults, IOFault{M: Match{Sock: "listener-conn", Op: "Write", Nth: r.Range(1, 12)}, Do: "error"})
+		p.Flavor += "+write-error"
 	}
 }
 
@@ -177,4 +195,31 @@ func genC16Race(p *Plan, r *RNG) {
 	}
 	add(Op{Actor: c, Kind: "binding", At: gap(500 * ms)})
 	p.QuietNS = 40 * sec
+}
+
+// genC16OnControl: ConnectionBind sent on the control transport (UDP or the TCP control
+// connection) instead of a fresh data connection. It cannot be honoured and is refused; the
+// peer connection stays what it was - bindable by a proper request, and closed after 30 s if
+// none comes.
+func genC16OnControl(p *Plan, r *RNG) {
+	baseSrvConfig(p, r)
+	p.Flavor = "tcprelay-bind-on-control"
+	if r.Chance(1, 2) {
+		p.Cfg.Listener = "tcp"
+		p.Flavor += "-tcp"
+	}
+	p.Cfg.Extra = map[string]int64{"tcp_peers": 1}
+	p.Cfg.AllocLifeS = 600
+	p.Clients = []ClientSpec{{ID: "c1", Addr: "10.0.1.1:4000", User: "u1", Pass: "pw-one"}}
+	p.Peers = []PeerSpec{{ID: "p1", Addr: "10.0.2.1:5000"}}
+	p.Ops = append(p.Ops, Op{Actor: "c1", Kind: "allocate", At: gap(100 * ms), A: OpArgs{Lifetime: -1, Transport: "tcp"}})
+	p.Ops = append(p.Ops, Op{Actor: "c1", Kind: "connect", At: gap(300 * ms), A: OpArgs{Peer: "10.0.2.1:5000"}})
+	p.Ops = append(p.Ops, Op{Actor: "c1", Kind: "connbind", At: gap(int64(r.Range(200, 3000)) * ms), A: OpArgs{N: 0, Flags: []string{"oncontrol"}}})
+	if p.Cfg.Listener == "tcp" && r.Chance(1, 2) {
+		p.Ops = append(p.Ops, Op{Actor: "c1", Kind: "connbind", At: gap(int64(r.Range(200, 3000)) * ms), A: OpArgs{N: 0}}) // the proper one
+		p.Ops = append(p.Ops, Op{Actor: "c1", Kind: "data_send", At: gap(500 * ms), A: OpArgs{N: 0, Len: 100}})
+	}
+	p.Ops = append(p.Ops, Op{Actor: "", Kind: "wait", At: gap(40 * sec)})
+	p.Ops = append(p.Ops, Op{Actor: "c1", Kind: "binding", At: gap(500 * ms)})
+	p.QuietNS = 10 * sec
 }
